@@ -240,12 +240,23 @@ class _BuildingNode(object):
         return self._variable
 
     def handle_token(self, sender, token):
+        token = self._receive_token(sender, token)
+        if token is not None:
+            self._propagate(token)
+
+    def _receive_token(self, sender, token):
+        """
+        Handle the reception of the token from `sender`.
+
+        Returns the token to propagate to our own neighbors (a copy of the
+        received token, extended with this node), or None if the token must
+        not be propagated any further (back edge).
+        """
         token = token[:]
         self._visited.append(sender)
         if sender is None:
             # root
             self.root = True
-            self._propagate(token)
 
         elif self.parent is None and not self.root:
             self.parent = sender
@@ -255,29 +266,37 @@ class _BuildingNode(object):
             self._neighbors.sort(
                 key=lambda x: x.count_neighbors_in_token(token), reverse=True
             )
-            self._propagate(token)
 
         else:
             if sender in self.children:
                 pass
             else:
                 self.pseudo_children.append(sender)
+            return None
 
-    def _propagate(self, token):
         token.append(self)
-
-        # heuristic :
-        # sort our neighbors based on the number of their neighbors are
-        # already in the token
         self._neighbors.sort(
             key=lambda x: x.count_neighbors_in_token(token), reverse=True
         )
+        return token
 
-        for n in self._neighbors:
-            if n not in self._visited:
-                if n not in self.pseudo_parents:
-                    self.children.append(n)
-                n.handle_token(self, token)
+    def _propagate(self, token):
+        # Depth-first propagation of the token, with an explicit stack
+        # instead of recursive calls: the depth of the tree is only bounded
+        # by the number of variables (e.g. long chains).
+        stack = [(self, token, iter(self._neighbors))]
+        while stack:
+            node, node_token, neighbors = stack[-1]
+            for n in neighbors:
+                if n not in node._visited:
+                    if n not in node.pseudo_parents:
+                        node.children.append(n)
+                    n_token = n._receive_token(node, node_token)
+                    if n_token is not None:
+                        stack.append((n, n_token, iter(n._neighbors)))
+                        break
+            else:
+                stack.pop()
 
     def count_neighbors_in_token(self, token):
         """
@@ -370,12 +389,13 @@ def _visit_tree(root):
 
     :param root: the root node of the tree.
     """
-    yield root
-    for c in root.children:
-        # Using 'yield from would be nicer, but is only available with python
-        #  >= 3.3
-        for n in _visit_tree(c):
-            yield n
+    # Explicit stack (no recursion): the tree can be as deep as the number of
+    # variables.
+    stack = [root]
+    while stack:
+        n = stack.pop()
+        yield n
+        stack.extend(reversed(n.children))
 
 
 def tree_str_desc(root, indent_num=0):
